@@ -199,3 +199,22 @@ fn c12_find() {
     kani::cover!(n == 2 && ft == Some(1));
     kani::cover!(n == 2 && ft.is_none());
 }
+
+
+/// Acceptance only, on a wider window: every byte string of length <= LW = @@LW@@ (N up to LW/8 pairs), so
+/// that header shapes with many pairs (N = 9, 10, ...) are inside the bound as well.
+const LW: usize = @@LW@@;
+
+#[kani::proof]
+#[kani::unwind(@@UW@@)]
+fn c12_new_accepts_exactly_wide() {
+    let buf: [u8; LW] = kani::any();
+    let len: usize = kani::any();
+    kani::assume(len <= LW);
+    let b = &buf[..len];
+    let r = MessageView::new(Cow::Borrowed(b)); // must not panic
+    assert!(r.is_ok() == format_allows(b));
+    kani::cover!(r.is_ok() && le32(b, 0) as usize == LW / 8);
+    kani::cover!(matches!(r, Err(DecodingError::NonMonotonicTags(_))) && le32(b, 0) >= 9);
+    kani::cover!(matches!(r, Err(DecodingError::NonMonotonicOffsets(_))) && le32(b, 0) >= 10);
+}
